@@ -181,7 +181,9 @@ def encode_url(url_str: str) -> "URL":
             raw_user = REQUOTER(username) if username else username
             raw_password = REQUOTER(password) if password else password
             netloc = make_netloc(raw_user, raw_password, host, port)
-            cache["raw_user"] = raw_user
+            # make_netloc() drops an empty user; a user the requoter reduced to
+            # "" (lone surrogates) is None for everybody who re-splits the netloc
+            cache["raw_user"] = raw_user or None
             cache["raw_password"] = raw_password
 
     if path:
